@@ -65,6 +65,9 @@ func runC15(c *ctx) {
 		"real results of FROST, FROST-Taproot, Doerner and CMP sessions; every single-node corruption of their CBOR trees + random flips/truncations; " +
 		"cmp.Config: a catalogue of crafted primes / moduli / Pedersen parameters (c15_crafted.go); " +
 		"non-trivial = the case exercises a codec on a non-empty input; distinct by input bytes"
+	if c.replay != "" && c.c15TwiceReplayRun() { // encode-twice cases (c15_twice.go)
+		return
+	}
 	if c.replay != "" {
 		c.c15ReplayRun()
 		return
@@ -84,6 +87,7 @@ func runC15(c *ctx) {
 	c.c15Crafted(mats)
 	// restore outcomes that depend on map iteration order: every damaged config restored many times (c15_repeat.go)
 	c.c15RestoreRepeat()
+	c.c15EncodeTwice(mats) // encode A, encode B, then decode what was returned for A (c15_twice.go)
 }
 
 // ---------------------------------------------------------------------------------------------
